@@ -20,6 +20,26 @@
 //!
 //! Everything else (clean END at a boundary, ERR anywhere, clean END of the BGZF *byte* stream after a partial
 //! member header) is allowed by the statement and only counted.
+//!
+//! Drivers: the corpus transcripts (`Variant::Primary` and, where the kind has one, `Variant::Eager`) for all record
+//! and index kinds; for the BGZF byte stream three drivers of this crate that collect BYTES until the first END / ERR
+//! (`bgzf::io::Reader` + `read_to_end`, the same reader under the corpus' mixed `read(n)` / `fill_buf` pattern incl.
+//! ≥ 64 KiB reads, `MultithreadedReader` + `read_to_end` near member boundaries), so that read-call chunking cannot
+//! blur the prefix comparison; FAI through `read_index` with one element per record.
+//! Besides the corpus items, every small raw BAM / BCF stream is written once more through noodles' BGZF writer
+//! with `flush()` 1, 2, 3, 4 and 8 bytes into a record, in the middle of one, on record starts and inside the header
+//! (`<kind>/c13-flushed-inside-records-*`): member boundaries inside a record's length field do not occur in the
+//! corpus files.
+//!
+//! Signatures: `<kind>[+<driver>]:<panic|fabricated-element|clean-eof-inside-record|clean-eof-inside-container|
+//! index-silently-different>:<cut class>[:<witness shape>]`, cut class ∈ header | body | trailer | at-boundary |
+//! inside-bgzf-header | inside-bgzf-body; witness shape e.g. `H-differs`, `R-extra`, `in-length-field`, `in-body`,
+//! `in-container-header`, `in-container-blocks`; panics carry the call-site signature (and ` profile=chk` in the chk
+//! stage).
+//!
+//! Parameters: `exhaustive=N` (cut every offset of files up to N bytes), `random=N`, `boundaries=N`, `seeds=N`,
+//! `scale=0|1|2`, `reduced=1` (chk / asan stages), `only=<substring of item names>`, `plan=1` (print the plan),
+//! `show=<item>:<cut>[:<driver>]` (print what one reading yields).
 
 use std::{
     collections::{BTreeMap, BTreeSet},
@@ -498,7 +518,7 @@ impl Oracle {
 
 #[derive(Default)]
 struct Verdict {
-    /// (diagnosis, description)
+    /// (diagnosis or "diagnosis|witness shape", description)
     violations: Vec<(String, String)>,
     /// counters to bump
     notes: Vec<String>,
@@ -516,17 +536,34 @@ fn tail_hex(b: &[u8], n: usize) -> String {
     vcore::report::hex(&b[from..])
 }
 
-/// `got[..n]` must equal `want[..n]`; returns the description of the first difference.
-fn prefix_diff(got: &[String], want: &[String], n: usize) -> Option<String> {
+/// `got[..n]` must equal `want[..n]`; returns ("fabricated-element|<witness shape>", description) of the first
+/// difference. Shape = kind letter of the offending element (H, R, C, I) + `-differs` / `-extra`.
+fn prefix_diff(got: &[String], want: &[String], n: usize) -> Option<(String, String)> {
+    let letter = |e: &str| e.split(':').next().unwrap_or("?").chars().take(3).collect::<String>();
     for i in 0..n {
         match (got.get(i), want.get(i)) {
             (Some(g), Some(w)) if g == w => {}
-            (Some(g), Some(w)) => return Some(format!("element #{i} differs from the uncut file's element #{i}: got `{}`, original `{}`", clip(g), clip(w))),
-            (Some(g), None) => return Some(format!("element #{i} `{}` has no counterpart: the uncut file yields only {} elements", clip(g), want.len())),
+            (Some(g), Some(w)) => {
+                return Some((
+                    format!("fabricated-element|{}-differs", letter(g)),
+                    format!("element #{i} differs from the uncut file's element #{i}: got `{}`, original `{}`", clip(g), clip(w)),
+                ));
+            }
+            (Some(g), None) => {
+                return Some((
+                    format!("fabricated-element|{}-extra", letter(g)),
+                    format!("element #{i} `{}` has no counterpart: the uncut file yields only {} elements", clip(g), want.len()),
+                ));
+            }
             (None, _) => return None,
         }
     }
     None
+}
+
+/// The last `n` chars before char index `at` and what follows (char-boundary safe).
+fn around(s: &str, at: usize) -> String {
+    clip(&s.chars().skip(at.saturating_sub(40)).collect::<String>())
 }
 
 const COUNT_RE: &str = "unplaced_unmapped_record_count: Some(";
@@ -546,7 +583,7 @@ fn judge(o: &Oracle, item: &Item, t: &Run, run: &Run, c: usize) -> Verdict {
     let mut v = Verdict { stream_end: "-", ..Default::default() };
     let sl = o.stream_len(c, item);
     if !(run.fin == "END" || run.fin.starts_with("ERR:")) {
-        v.violations.push(("fabricated-element".into(), format!("the transcript does not end with END or ERR but with `{}`", clip(&run.fin))));
+        v.violations.push(("fabricated-element|bad-final-element".into(), format!("the transcript does not end with END or ERR but with `{}`", clip(&run.fin))));
         return v;
     }
     match o.class {
@@ -556,7 +593,7 @@ fn judge(o: &Oracle, item: &Item, t: &Run, run: &Run, c: usize) -> Verdict {
             if got.len() > want.len() || got != &want[..got.len()] {
                 let at = got.iter().zip(want.iter()).position(|(a, b)| a != b).unwrap_or(got.len().min(want.len()));
                 v.violations.push((
-                    "fabricated-element".into(),
+                    "fabricated-element|bytes-differ".into(),
                     format!(
                         "the reader delivered {} bytes that are not a prefix of the {} original bytes (first difference at {at}; the complete members before the cut hold {sl} bytes); then {}",
                         got.len(),
@@ -571,15 +608,15 @@ fn judge(o: &Oracle, item: &Item, t: &Run, run: &Run, c: usize) -> Verdict {
             } else {
                 // more than the complete members hold: only possible from a partial member, i.e. unverified data
                 v.violations.push((
-                    "fabricated-element".into(),
+                    "fabricated-element|bytes-beyond-complete-members".into(),
                     format!("the reader delivered {} bytes although the complete members before the cut hold only {sl} (bytes from an incomplete, unverifiable member)", got.len()),
                 ));
             }
             v.stream_end = if sl == want.len() { "whole-stream" } else { "partial-stream" };
         }
         Class::Records => {
-            if let Some(d) = prefix_diff(&run.elems, &t.elems, run.elems.len()) {
-                v.violations.push(("fabricated-element".into(), format!("{d}; then {}", run.fin)));
+            if let Some((diag, d)) = prefix_diff(&run.elems, &t.elems, run.elems.len()) {
+                v.violations.push((diag, format!("{d}; then {}", run.fin)));
             }
             let b0 = o.rec_bounds[0];
             if sl < b0 {
@@ -600,7 +637,8 @@ fn judge(o: &Oracle, item: &Item, t: &Run, run: &Run, c: usize) -> Verdict {
                     let i = o.rec_bounds.partition_point(|&b| b <= sl);
                     let (rs, re) = (o.rec_bounds[i - 1], o.rec_bounds[i]);
                     v.violations.push((
-                        "clean-eof-inside-record".into(),
+                        // the first 4 bytes of a BAM / BCF record are its (first) length field
+                        format!("clean-eof-inside-record|{}", if sl - rs < 4 { "in-length-field" } else { "in-body" }),
                         format!(
                             "the stream the record reader receives is {sl} bytes long and ends {} bytes into record #{} (bytes {rs}..{re} of the stream), yet the reader reports a clean end of file after {} record(s); last 24 stream bytes: {}",
                             sl - rs,
@@ -613,8 +651,8 @@ fn judge(o: &Oracle, item: &Item, t: &Run, run: &Run, c: usize) -> Verdict {
             }
         }
         Class::Cram => {
-            if let Some(d) = prefix_diff(&run.elems, &t.elems, run.elems.len()) {
-                v.violations.push(("fabricated-element".into(), format!("{d}; then {}", run.fin)));
+            if let Some((diag, d)) = prefix_diff(&run.elems, &t.elems, run.elems.len()) {
+                v.violations.push((diag, format!("{d}; then {}", run.fin)));
             }
             let l = o.cram.as_ref().unwrap();
             if c < o.cram_hdr_end {
@@ -630,7 +668,7 @@ fn judge(o: &Oracle, item: &Item, t: &Run, run: &Run, c: usize) -> Verdict {
                     let i = l.containers.partition_point(|&b| b <= c) - 1;
                     let end = l.containers.get(i + 1).copied().unwrap_or(l.end);
                     v.violations.push((
-                        "clean-eof-inside-container".into(),
+                        format!("clean-eof-inside-container|{}", if c < l.bodies[i] { "in-container-header" } else { "in-container-blocks" }),
                         format!(
                             "the file ends {} bytes into container #{i} (bytes {}..{end}, {} records{}), yet the reader reports a clean end of file",
                             c - l.containers[i],
@@ -650,7 +688,7 @@ fn judge(o: &Oracle, item: &Item, t: &Run, run: &Run, c: usize) -> Verdict {
                 v.notes.push("tolerated[text-header-cut-not-compared]".into());
                 if run.elems.len() > 1 || run.elems.first().map(|e| !e.starts_with("H:")).unwrap_or(false) {
                     v.violations.push((
-                        "fabricated-element".into(),
+                        "fabricated-element|elements-from-cut-text-header".into(),
                         format!("the stream ends inside the header ({sl} of {} header bytes) but the reader yields {} element(s), first `{}`", o.text_header_end, run.elems.len(), clip(&run.elems[0])),
                     ));
                 }
@@ -664,11 +702,11 @@ fn judge(o: &Oracle, item: &Item, t: &Run, run: &Run, c: usize) -> Verdict {
             let k = (i - 1).saturating_sub(first_record_line);
             v.stream_end = if partial { "inside-line" } else { "at-line-boundary" };
             let fixed = hdr_elems + k;
-            if let Some(d) = prefix_diff(&run.elems, &t.elems, run.elems.len().min(fixed)) {
-                v.violations.push(("fabricated-element".into(), format!("{d}; then {} (the received stream holds {k} complete record line(s))", run.fin)));
+            if let Some((diag, d)) = prefix_diff(&run.elems, &t.elems, run.elems.len().min(fixed)) {
+                v.violations.push((diag, format!("{d}; then {} (the received stream holds {k} complete record line(s))", run.fin)));
             } else if run.elems.len() > fixed + partial as usize {
                 v.violations.push((
-                    "fabricated-element".into(),
+                    "fabricated-element|more-elements-than-lines".into(),
                     format!(
                         "{} element(s) from a stream of {sl} bytes that holds {k} complete record line(s){}: extra element `{}`",
                         run.elems.len(),
@@ -683,12 +721,12 @@ fn judge(o: &Oracle, item: &Item, t: &Run, run: &Run, c: usize) -> Verdict {
                 } else if e.starts_with("R:") || e.starts_with("I:") {
                     v.notes.push("tolerated[partial-line-parsed-as-record]".into());
                 } else {
-                    v.violations.push(("fabricated-element".into(), format!("element parsed from the partial last line is not a record: `{}`", clip(e))));
+                    v.violations.push(("fabricated-element|partial-line-not-a-record".into(), format!("element parsed from the partial last line is not a record: `{}`", clip(e))));
                 }
             }
             if o.class == Class::Crai && run.ended_cleanly() && run.elems != t.elems {
                 v.violations.push((
-                    "index-silently-different".into(),
+                    "index-silently-different|fewer-records".into(),
                     format!("read to a clean end with {} of {} records although the gzip member is incomplete", run.elems.len(), t.elems.len()),
                 ));
             }
@@ -699,7 +737,7 @@ fn judge(o: &Oracle, item: &Item, t: &Run, run: &Run, c: usize) -> Verdict {
                 let want = t.elems.first().cloned().unwrap_or_default();
                 let got = run.elems.first().cloned().unwrap_or_default();
                 if run.elems.len() != 1 {
-                    v.violations.push(("fabricated-element".into(), format!("{} elements from an index reader", run.elems.len())));
+                    v.violations.push(("fabricated-element|element-count".into(), format!("{} elements from an index reader", run.elems.len())));
                 } else if got == want {
                     if c < o.len {
                         v.notes.push("observed[index-equal-from-cut-file]".into());
@@ -707,19 +745,19 @@ fn judge(o: &Oracle, item: &Item, t: &Run, run: &Run, c: usize) -> Verdict {
                 } else if sl + 8 >= o.stream.len() && without_unplaced_count(&want).as_deref() == Some(&got) {
                     v.notes.push("tolerated[optional-unplaced-unmapped-count-lost]".into());
                 } else {
-                    let at = got.bytes().zip(want.bytes()).position(|(a, b)| a != b).unwrap_or(got.len().min(want.len()));
+                    let at = got.chars().zip(want.chars()).position(|(a, b)| a != b).unwrap_or(got.chars().count().min(want.chars().count()));
                     v.violations.push((
                         "index-silently-different".into(),
                         format!(
                             "read_index returned Ok from {sl} of {} stream bytes with an index that differs from the original (Debug text differs at char {at}: got `…{}`, original `…{}`)",
                             o.stream.len(),
-                            clip(&got[at.saturating_sub(40)..]),
-                            clip(&want[at.saturating_sub(40)..])
+                            around(&got, at),
+                            around(&want, at)
                         ),
                     ));
                 }
             } else if !run.elems.is_empty() {
-                v.violations.push(("fabricated-element".into(), "an index element followed by ERR".into()));
+                v.violations.push(("fabricated-element|element-before-error".into(), "an index element followed by ERR".into()));
             }
         }
     }
@@ -1002,7 +1040,11 @@ fn run_case(ctx: &Ctx, files: &[FileEntry], case: &Case) -> CaseOut {
         }
         fps.insert(fnv1a(format!("{}|{}|{cc}|{}|{}", kind.name(), case.drv.name(), v.stream_end, run.fin).as_bytes()));
         for (diag, desc) in v.violations {
-            let sig = format!("{sk}:{diag}:{cc}");
+            // <kind>:<diagnosis>:<cut class>[:<witness shape>]
+            let sig = match diag.split_once('|') {
+                Some((d, shape)) => format!("{sk}:{d}:{cc}:{shape}"),
+                None => format!("{sk}:{diag}:{cc}"),
+            };
             bump(format!("violating_runs[{sig}]"));
             if reported.insert(sig.clone()) {
                 out.violation_with(
